@@ -17,7 +17,7 @@ RULE = ("all atoms and ordered pairs of an adversarial alphabet (quotes of every
         "non-trivial = value contains a quote, backslash, comment marker or control character; distinct = distinct (value, dialect, kind)")
 ASSUMPTIONS = ["a dialect whose generator cannot quote identifiers at all is skipped for identifiers (counted)"]
 SPEC = {
-    "quick": {"shards": 16, "time_cap": 150, "random": 1500},
+    "quick": {"shards": 16, "time_cap": 400, "random": 1500},
     "thorough": {"shards": 16, "time_cap": 1500, "random": 30000},
 }
 
